@@ -653,7 +653,6 @@ class PeerConnection:
             try:
                 with self.write_lock:
                     self._write_buffer += new_msg.as_bytes()
-                self.demand_attention()
 
                 self.msg_dump.sent(new_msg)
                 self.logger.debug(f"sent diameter message {new_msg}")
@@ -662,4 +661,8 @@ class PeerConnection:
                     f"failed to encode a queued diameter message as bytes: "
                     f"{e}; message discarded")
             finally:
+                # the node must not be woken up before the message counts as
+                # done: it would see a message still on its way, leave a
+                # closing connection open, and nothing would wake it up again
                 self._write_msg_queue.task_done()
+                self.demand_attention()
